@@ -28,6 +28,8 @@ CLAIMED = {
              ref='section 4 C10', note=COMMON_NOTE + "T-LOOP; A-REMOTE (as_response_address is the same endpoint value); behaviour after MessageManager.shutdown (forced NON) excluded from the piggy-back clauses; udp6 address predicates (is_multicast*) are abstract fields."),
  'C12': dict(text="Deductive proof that ReplayWindow implements the abstract 'seen' set: is_valid(n) iff n not seen; strike_out raises iff seen, otherwise adds exactly n (numbers falling out of the window become seen), keeps well-formedness and calls the callback once; initialisers establish the stated views. Integers used as bit fields are modelled as Int->Bool maps.",
              ref='section 4 C12', note=COMMON_NOTE + "aiocoap.oscore is not importable here (AST only); the call-order contract of CanUnprotect.unprotect is not yet under contract."),
+ 'C13': dict(text="Deductive proof with a ghost model of sequence.json: new_sequence_number returns strictly increasing numbers, refuses at 2^40-1 without changing state, and every number it returns is below the next-to-send value already on disk (persist before use); post_seqnoincrease/_store keep counter <= persisted bound == disk, chunk doubling up to the limit, store iff the bound grew; inside _store the disk changes only at the atomic os.replace, and the crash invariant 'every number handed out so far < disk next-to-send' is an obligation after every file-system effect; _replay_window_changed writes 'unknown' to disk before the first acceptance is reported. Together with the (assumed) loader postcondition this gives no reuse across crashes.",
+             ref='section 4 C13', note=COMMON_NOTE + "aiocoap.oscore is read from the AST only (not importable here); A-FS (atomic rename, process-crash model, no power-loss durability); _load, _destroy and the lock file are not under contract (loader postcondition 'counter := disk next-to-send, window unknown/persisted' is assumed); JSON round trip of ints assumed."),
  'C14': dict(text="Deductive proof that every MessageManager entry point preserves the NSTART object invariant (an endpoint has a backlog entry iff it has exactly one open exchange; queued items are well-formed CON messages of that endpoint), that send_message queues a CON behind an open exchange at the END of the backlog and transmits otherwise, that _continue_backlog pops from the FRONT until an exchange is open again, and that give-up/transport errors drop the backlog together with a dispatch_error for the endpoint. The 'eventually' clause is reduced to this per-step progress contract.",
              ref='section 4 C14', note=COMMON_NOTE + "T-LOOP; A-OWN; A-FRESHMSG; induction over entry points is the stated meta-argument."),
  'C15': dict(text="Deductive proof of RFC 8323 framing: _extract_message_size/_encode_length/_serialize/_decode_message equal the spec functions, prefix-stability and inverse lemmas, one iteration of data_received consumes exactly one complete acceptable frame (spool advanced, message dispatched once and only after CSM, signalling handled, abort on oversize/unparsable/no-CSM), empty messages ignored, signalling rules of _process_signaling, Abort = message 7.05 + close.",
